@@ -50,7 +50,7 @@ def construct(ctxname, e, idx):
                 stmtexprvalue="d = ({ k++; %s; });" % e)[ctxname]
 
 
-def render_unit(ty, cases):
+def render_unit(ty, cases, ns=NS):
     t = TYPES[ty]
     src = ["int printf(const char *, ...);",
            "long probe_rsp(void); int probe_x87(void); void probe_reset(void);",
@@ -68,10 +68,84 @@ def render_unit(ty, cases):
                    % (i, LOCALS, SETUP, construct(cs["ctx"], e, i)))
     src.append("static void (*tab[])(long, long *) = {%s};" % ", ".join("c_%d" % cs["idx"] for cs in cases))
     src.append("static int ids[] = {%s};" % ", ".join(str(cs["idx"]) for cs in cases))
-    src.append("static long ns[] = {%s};" % ", ".join(str(n) for n in NS))
+    src.append("static long ns[] = {%s};" % ", ".join(str(n) for n in ns))
     src.append("int main(void) { long out[2]; for (int i = 0; i < %d; i++) for (int j = 0; j < %d; j++) {"
                " probe_reset(); tab[i](ns[j], out); int tag = probe_x87(); int ok = ldcheck(1.25L, 2.5L); probe_reset();"
-               " printf(\"%%d %%ld %%ld %%d %%d\\n\", ids[i], ns[j], out[1] - out[0], tag, ok); } return 0; }" % (len(cases), len(NS)))
+               " printf(\"%%d %%ld %%ld %%d %%d\\n\", ids[i], ns[j], out[1] - out[0], tag, ok); } return 0; }" % (len(cases), len(ns)))
+    return "\n".join(src) + "\n"
+
+
+# ---------------------------------------------------------- comma chains (Chains.tla)
+CHAIN_NS = (1, 9, 2000)
+CH_T = {"ldouble": ("long double", "L"), "double": ("double", "D"), "int": ("int", "I"), "struct": ("struct Sm", "S")}
+
+
+def chain_expr(cs):
+    def leaf(m):
+        j = "ABCD".index(m.group(0)) + 1
+        pfx = CH_T[cs["types"][j - 1]][1]
+        return "%s%d" % (pfx, j) if cs["kind"] == "var" else "%s%d = %sR" % (pfx, j, pfx)
+    return re.sub(r"[ABCD]", leaf, cs["shape"])
+
+
+def chain_sig(cs):
+    return "chain:%s:%s:%s:%s" % (cs["shape"].replace(" ", ""), "-".join(cs["types"]), cs["kind"], cs["ctx"])
+
+
+def render_chains(cases):
+    src = ["int printf(const char *, ...);", "long probe_rsp(void); int probe_x87(void); void probe_reset(void);",
+           "struct Sm { long x; int y; };",
+           "static int ldcheck(long double u, long double v) { long double w = u * v + u; return w == 4.375L; }"]
+    # operands are file-scope objects (the functions stay small: only the construct is under test)
+    init = {"L": "1.5L", "D": "2.5", "I": "3", "S": "{4, 5}"}
+    src.append(" ".join("static %s %s;" % (t, ", ".join(["%s%d = %s" % (p, j, init[p]) for j in range(1, 5)] + ["%sR = %s" % (p, init[p]), p + "V"]))
+                        for t, p in CH_T.values()))
+    for cs in cases:
+        e = chain_expr(cs)
+        last = CH_T[cs["types"][-1]][1]
+        body = {"stmt": "%s;" % e, "forinc": "for (k = 0; k < 1; %s) k++;" % e, "value": "%sV = %s;" % (last, e)}[cs["ctx"]]
+        src.append("void c_%d(long n, long *out) { int k; out[0] = probe_rsp(); for (long it = 0; it < n; it++) { %s } out[1] = probe_rsp(); }"
+                   % (cs["idx"], body))
+    src.append("static void (*tab[])(long, long *) = {%s};" % ", ".join("c_%d" % cs["idx"] for cs in cases))
+    src.append("static int ids[] = {%s};" % ", ".join(str(cs["idx"]) for cs in cases))
+    src.append("static long ns[] = {%s};" % ", ".join(str(n) for n in CHAIN_NS))
+    src.append("int main(void) { long out[2]; for (int i = 0; i < %d; i++) for (int j = 0; j < %d; j++) {"
+               " probe_reset(); tab[i](ns[j], out); int tag = probe_x87(); int ok = ldcheck(1.25L, 2.5L); probe_reset();"
+               " printf(\"%%d %%ld %%ld %%d %%d\\n\", ids[i], ns[j], out[1] - out[0], tag, ok); } return 0; }" % (len(cases), len(CHAIN_NS)))
+    return "\n".join(src) + "\n"
+
+
+# ------------------------------------- simultaneously live call results (LiveCalls.tla)
+LC = {"ri": ("struct R { int v[3]; };", "struct R", "int", 3), "rs": ("struct R { double v[2]; };", "struct R", "double", 2),
+      "rc": ("struct R { unsigned char v[8]; int n; };", "struct R", "unsigned char", 8), "un": ("union R { int v[4]; long w; };", "union R", "int", 4),
+      "mi": ("struct R { long v[5]; };", "struct R", "long", 5), "ml": ("struct R { long double v[2]; };", "struct R", "long double", 2)}
+
+
+def livecall_expr(cs):
+    calls = ["mk%s(%d)" % ("AB"[f], x) for f, x in zip(cs["fns"], cs["xs"])]
+    args = [c + ".v" for c in calls]
+    if cs["use"] == "lastbyval":
+        args[-1] = calls[-1]
+    return "comb%d%s(%s)" % (cs["n"], "v" if cs["use"] == "lastbyval" else "", ", ".join(args))
+
+
+def render_livecalls(cls, cases):
+    d, R, E, ln = LC[cls]
+    src = ["int printf(const char *, ...);", d, "typedef %s R; typedef %s E;" % (R, E)]
+    for f, name in enumerate("AB"):
+        src.append("static R mk%s(int x) { R r; for (int j = 0; j < %d; j++) r.v[j] = %d + x * 10 + j; return r; }" % (name, ln, f * 100))
+    src += ["static long comb2(const E *p, const E *q) { return (long)p[0] + (long)q[1] * 1000; }",
+            "static long comb3(const E *p, const E *q, const E *s) { return (long)p[0] + (long)q[1] * 1000 + (long)s[0] * 1000000; }",
+            "static long comb2v(const E *p, R q) { return (long)p[0] + (long)q.v[1] * 1000; }",
+            "static long comb3v(const E *p, const E *q, R s) { return (long)p[0] + (long)q[1] * 1000 + (long)s.v[0] * 1000000; }"]
+    for cs in cases:
+        e = livecall_expr(cs)
+        body = {"assign": "long r; r = %s; return r;" % e, "init": "long r = %s; return r;" % e, "return": "return %s;" % e}[cs["ctx"]]
+        src.append("long t_%d(void) { %s }" % (cs["idx"], body))
+    src.append("int main(void) {")
+    for cs in cases:
+        src.append(" printf(\"%d %%ld\\n\", t_%d());" % (cs["idx"], cs["idx"]))
+    src.append(" return 0; }")
     return "\n".join(src) + "\n"
 
 
@@ -189,6 +263,54 @@ def discard_cases(ctx, stride):
     return cases
 
 
+def builder_cases(ctx, module, stride):
+    out = os.path.join(ctx.scratch, module + ".ndjson")
+    cfg = ctx.cfg("stack", module + ".cfg", Seed=ctx.seed % stride if stride > 1 else 0, Stride=stride)
+    res = ctx.tlc("stack", module, cfg, env=dict(OUT=out), workers=2, timeout=300)
+    cases = sorted(vt.read_ndjson(out), key=lambda c: c["idx"])
+    if not res.ok or not cases:
+        raise Infra("%s.tla generated nothing: %s" % (module, res.trace_text()[:300]))
+    return cases
+
+
+def run_livecalls(ctx, tree, lunits):
+    """compile + run the LiveCalls units with the tree's chibicc; a value that differs from Level A is given to gcc too"""
+    def one(item):
+        cls, (f, cl) = item
+        exe = f[:-2] + ".exe"
+        r = vt.sh([tree + "/chibicc", "-I" + tree + "/include", "-o", exe, f], timeout=120)
+        if r.returncode:
+            raise Infra("chibicc failed on %s: %s" % (f, r.stderr[-500:]))
+        p = subprocess.run([exe], capture_output=True, text=True, timeout=60)
+        got = {int(l.split()[0]): int(l.split()[1]) for l in p.stdout.splitlines() if len(l.split()) == 2}
+        bad = [cs for cs in cl if got.get(cs["idx"]) != cs["exp"]]
+        ggot = {}
+        if bad:
+            r = vt.sh(["cc", "-w", "-O0", "-o", exe + ".gcc", f], timeout=120)
+            if r.returncode == 0:
+                p2 = subprocess.run([exe + ".gcc"], capture_output=True, text=True, timeout=60)
+                ggot = {int(l.split()[0]): int(l.split()[1]) for l in p2.stdout.splitlines() if len(l.split()) == 2}
+        return cls, p.returncode, got, ggot
+    n = 0
+    for cls, rc, got, ggot in vt.pmap(one, sorted(lunits.items())):
+        f, cl = lunits[cls]
+        for cs in cl:
+            n += 1
+            ctx.note_case("livecalls:%s:%s" % (cls, cs["idx"]), nontrivial=True)
+            g = got.get(cs["idx"])
+            if g == cs["exp"]:
+                continue
+            if ggot.get(cs["idx"]) != cs["exp"]:          # the reference compiler disagrees with Level A too
+                ctx.oracle_disagreements += 1
+                continue
+            e = livecall_expr(cs)
+            ctx.report("livecalls:%s:%s:%dcalls:%s" % (cls, cs["use"], cs["n"], "value-not-its-own" if g is not None else "program-died"),
+                       "`%s` (%s, context %s): Level A and gcc give %d, the tree's chibicc gives %s - the value of a call was not usable while a later call of the same type ran"
+                       % (e, LC[cls][0], cs["ctx"], cs["exp"], g), case=dict(kind="livecalls", cls=cls, case=cs, expr=e, expected=cs["exp"], observed=g, rc=rc))
+    ctx.cov["traces_validated_against_impl"] += n
+    return n
+
+
 def run_discard_programs(ctx, tree, units):
     """compile with the tree's chibicc, link the gcc-compiled probes, run; -> {idx: [(N, rspdiff, tag, ok)]}"""
     d = ctx.tmp("c20-run")
@@ -227,7 +349,7 @@ def report_static(ctx, viol, byfn, casemap, unitsrc):
         unit, fname = fn.split(":", 1)
         cs = casemap.get(fn)
         if cs:
-            sig = "discard:%s:%s:%s:%s" % (cs["form"], cs["type"], cs["ctx"], kind)
+            sig = "%s:%s" % (cs.get("sig") or "discard:%s:%s:%s" % (cs["form"], cs["type"], cs["ctx"]), kind)
         else:
             sig = "corpus:%s:%s" % (unit, kind)
         p = None
@@ -264,17 +386,50 @@ def run(ctx):
         f = os.path.join(d, "discard_%s.c" % ty)
         open(f, "w").write(render_unit(ty, cl))
         units[ty] = (f, cl)
+    for cs in cases:
+        cs.update(sig="discard:%s:%s:%s" % (cs["form"], cs["type"], cs["ctx"]), text="`%s` in context %s" % (expr(cs["form"], cs["type"]), cs["ctx"]))
+    # comma expressions of every grouping (Chains.tla)
+    chains = builder_cases(ctx, "Chains", 24 if q else 1)
+    for cs in chains:
+        cs.update(form="chain", type="-".join(cs["types"]), sig=chain_sig(cs), text=chain_expr(cs))
+    nsplit = 4 if q else 8
+    for j in range(nsplit):
+        cl = chains[j::nsplit]
+        if cl:
+            f = os.path.join(d, "chains_%d.c" % j)
+            open(f, "w").write(render_chains(cl))
+            units["chains_%d" % j] = (f, cl)
+    # two or three live results of calls returning the same aggregate type (LiveCalls.tla)
+    lcases = builder_cases(ctx, "LiveCalls", 6 if q else 1)
+    lunits = {}
+    for cls in LC:
+        cl = [cs for cs in lcases if cs["cls"] == cls]
+        if cl:
+            f = os.path.join(d, "livecalls_%s.c" % cls)
+            open(f, "w").write(render_livecalls(cls, cl))
+            lunits[cls] = (f, cl)
+
+    def label(ty):
+        return ty if ty.startswith("chains") else "discard_" + ty
 
     def comp(item):
         ty, (f, cl) = item
-        return ty, unit_program(ctx, tree, "discard_" + ty, f, [])
+        return ty, unit_program(ctx, tree, label(ty), f, [])
     for ty, (pr, hooked, asm) in vt.pmap(comp, sorted(units.items())):
         prog += pr
         hooked_any = hooked if hooked_any is None else (hooked_any and hooked)
-        unitsrc["discard_" + ty] = (open(units[ty][0]).read(), asm, None)
+        unitsrc[label(ty)] = (open(units[ty][0]).read(), asm, None)
         for cs in units[ty][1]:
-            casemap["discard_%s:c_%d" % (ty, cs["idx"])] = cs
-            casemap["discard_%s:r_%d" % (ty, cs["idx"])] = cs
+            casemap["%s:c_%d" % (label(ty), cs["idx"])] = cs
+            casemap["%s:r_%d" % (label(ty), cs["idx"])] = cs
+
+    def compl(item):
+        cls, (f, cl) = item
+        return cls, unit_program(ctx, tree, "livecalls_" + cls, f, [])
+    # (the LiveCalls programs are judged on their values; their emitted code joins the static corpus in the thorough tier)
+    for cls, (pr, hooked, asm) in vt.pmap(compl, [] if q else sorted(lunits.items())):
+        prog += pr
+        unitsrc["livecalls_" + cls] = (open(lunits[cls][0]).read(), asm, None)
     f = os.path.join(d, "casts.c")
     open(f, "w").write(render_casts())
     pr, hooked, asm = unit_program(ctx, tree, "casts", f, [])
@@ -313,22 +468,23 @@ def run(ctx):
     for ty, (rc, res) in sorted(results.items()):
         for cs in units[ty][1]:
             rows = res.get(cs["idx"], [])
-            base = "discard:%s:%s:%s" % (cs["form"], cs["type"], cs["ctx"])
+            base = cs["sig"]
             ctx.note_case("run:" + base, nontrivial=True)
-            if len(rows) != len(NS):
-                ctx.report(base + ":program-died", "discard_%s exited with %s before finishing case %d (%d of %d lines)" % (ty, rc, cs["idx"], len(rows), len(NS)),
+            if len(rows) != 3:
+                ctx.report(base + ":program-died", "discard_%s exited with %s before finishing case %d (%d of 3 lines)" % (ty, rc, cs["idx"], len(rows)),
                            case=dict(kind="run", type=ty, case=cs, source=open(units[ty][0]).read()))
                 continue
             for (n, diff, tag, ok) in rows:
                 nrun += 1
                 what = "rsp-residue" if diff != 0 else "x87-residue" if tag != 0xffff else "ld-corrupted" if ok != 1 else None
                 if what:
-                    ctx.report("%s:run-%s" % (base, what), "`%s` in context %s, type %s, %d iterations: rsp moved by %d bytes, x87 tag word %#06x (0xffff = empty), later long double computation %s"
-                               % (expr(cs["form"], ty), cs["ctx"], ty, n, diff, tag, "correct" if ok == 1 else "WRONG"),
+                    ctx.report("%s:run-%s" % (base, what), "%s, %d iterations: rsp moved by %d bytes, x87 tag word %#06x (0xffff = empty), later long double computation %s"
+                               % (cs["text"], n, diff, tag, "correct" if ok == 1 else "WRONG"),
                                case=dict(kind="run", type=ty, case=cs, n=n, observed=dict(rsp_diff=diff, x87_tag=tag, ld_ok=ok),
                                          expected=dict(rsp_diff=0, x87_tag=0xffff, ld_ok=1), source=open(units[ty][0]).read()))
                     break
     ctx.cov["traces_validated_against_impl"] += nrun
+    nlive = run_livecalls(ctx, tree, lunits)
     ctx.sample(dict(kind="discard program run", case=cases[len(cases) // 2], construct=construct(cases[len(cases) // 2]["ctx"], expr(cases[len(cases) // 2]["form"], cases[len(cases) // 2]["type"]), 0), iterations=list(NS)))
     ctx.phase("replay")
     ctx.assumptions += ["frame set-up/tear-down (push rbp / mov rsp,rbp / sub $n,rsp ... mov rbp,rsp / pop rbp) is pattern-recognised; rsp8 is relative to the post-prologue value",
@@ -337,7 +493,7 @@ def run(ctx):
     return ctx.finish(rule="case = one function of the emitted code (explored from its entry and from each of its statements) or one (form, type, context) Discard program run with N in {1, 9, 100000}; non-trivial = more than 12 instructions; distinct = distinct function / (form, type, context)",
                       exhaustive=not q,
                       extra=dict(functions=len(prog), statements=nst, instructions=sum(len(p["code"]) for p in prog),
-                                 discard_cases=len(cases), discard_runs=nrun, hooked=bool(hooked_any)))
+                                 discard_cases=len(cases), chain_cases=len(chains), livecall_cases=nlive, discard_runs=nrun, hooked=bool(hooked_any)))
 
 
 def replay(ctx, path):
